@@ -147,8 +147,28 @@ def _decode_seq(items):
     return out
 
 
+_HASH_MOD = (1 << 61) - 1  # CPython: hash(x) == hash(x + _HASH_MOD) for ints, hash(-1) == hash(-2)
+
+
+def _hash_siblings(seq):
+    """Different sequences of the same length whose tuple hashes collide with seq's (or are
+    likely to): the memoised standardisation must still keep them apart."""
+    sibs = []
+    if all(type(x) is int for x in seq) and seq:
+        swapped = [(-2 if x == -1 else -1 if x == -2 else x) for x in seq]
+        if swapped != list(seq):
+            sibs.append(swapped)
+        sibs.append([seq[0] + _HASH_MOD] + list(seq[1:]))
+        sibs.append(list(seq[:-1]) + [seq[-1] - _HASH_MOD])
+    return sibs
+
+
 def check_standardise(case):
     seq = _decode_seq(case["seq"])
+    # a replayable mini-history: hash-colliding siblings first, then the sequence itself
+    for sib in _hash_siblings(seq):
+        if tuple(Perm.to_standard(sib)) != ref.std(sib):
+            return BAD("to_standard_hash_sibling", {"sibling": sib, "got": list(Perm.to_standard(sib)), "want": list(ref.std(sib))})
     want = ref.std(seq)
     for name, arg in (("list", list(seq)), ("tuple", tuple(seq)), ("iter", iter(seq)), ("gen", (x for x in seq))):
         for fn in (Perm.to_standard, Perm.standardize, Perm.from_iterable):
